@@ -173,9 +173,14 @@ def check(ctx):
         for m in (start, end, isr, prep):
             if m is not None:
                 ctx.touch(m)
+        enum_true = None
         if isr is not None:
             flag = returned_field(isr)
             opt_flag = option_flag(isr) if flag is None else None
+            if flag is None and opt_flag is None:
+                ef = enum_flag(prog, isr, ty)
+                if ef is not None:
+                    flag, enum_true = ef
         else:
             # no flag getter: the tracker hands its data out through *gated* accessors (`fn x(&self) -> Option<..>` that
             # return Some(field) only where the flag field is true). The flag is the bool field that start() sets to
@@ -191,7 +196,11 @@ def check(ctx):
         flag = flag or opt_flag
         sw = [(b, i, rv) for (b, i, adt, f, rv) in lib.field_writes(start, ty) if f == flag]
         ew = [(b, i, rv) for (b, i, adt, f, rv) in lib.field_writes(end, ty) if f == flag]
-        if opt_flag is None:
+        if enum_true is not None:
+            # is_reacting() maps the variants of a state enum to true / false: start stores a `true` variant, end a `false` one
+            ok_s = bool(sw) and all(agg_variant(start, rv) in enum_true for _, _, rv in sw)
+            ok_e = bool(ew) and all(agg_variant(end, rv) is not None and agg_variant(end, rv) not in enum_true for _, _, rv in ew)
+        elif opt_flag is None:
             ok_s = bool(sw) and all("use" in rv and lib.const_val(rv["use"]) == 1 for _, _, rv in sw)
             ok_e = bool(ew) and all("use" in rv and lib.const_val(rv["use"]) == 0 for _, _, rv in ew)
         else:
@@ -213,7 +222,11 @@ def check(ctx):
             for b_, i_, st_ in d.iter_stmts():
                 if st_["k"] == "assign" and "agg" in st_["rv"] and st_["rv"]["agg"].get("adt") == ty and flag in st_["rv"]["agg"].get("fields", []):
                     opf = st_["rv"]["agg"]["ops"][st_["rv"]["agg"]["fields"].index(flag)]
-                    okd = (lib.const_val(opf) == 0) if opt_flag is None else lib.writes_none(d, {"use": opf})
+                    if enum_true is not None:
+                        av_ = agg_variant(d, {"use": opf})
+                        okd = av_ is not None and av_ not in enum_true
+                    else:
+                        okd = (lib.const_val(opf) == 0) if opt_flag is None else lib.writes_none(d, {"use": opf})
                     if not okd:
                         # `..Default::default()` / derived Default: bool::default() is false, Option::default() is None
                         os_ = origins(d, opf)
@@ -264,7 +277,12 @@ def check(ctx):
                     okw = False
             # ... and on every path: a conditional write would leave the previous run's value visible
             if okw:
-                wpath = lib.path_to_return_avoiding(start, [lib.call_target(start, cc) for cc in claim_calls], [b for (b, i, rv) in ws])
+                # a claim that reports failure (`VecDeque::remove -> Option`) claimed nothing on its None arm
+                starts_ = []
+                for cc in claim_calls:
+                    arms_ = lib.result_arms(start, cc)
+                    starts_ += [ok_t for (sb_, ok_t, fail_t) in arms_] if arms_ else [lib.call_target(start, cc)]
+                wpath = lib.path_to_return_avoiding(start, starts_, [b for (b, i, rv) in ws])
                 ctx.check(wpath is None, "C03.b", "%s::start:writes-%s-on-every-claimed-path" % (tname, f), "%s:%d" % (start.file, start.line),
                           "every path after the claim writes %s" % f,
                           "a path of start() claims an entry but does not overwrite %s: the reader sees the value of an earlier reaction" % f,
@@ -572,6 +590,48 @@ def gated_field(m, ty, flag):
                 else:
                     return None
     return fields.pop() if len(fields) == 1 and n_some else None
+
+
+def agg_variant(body, rv):
+    """variant name of the enum value an rvalue stores (a unit-variant aggregate, directly or through temporaries)"""
+    if "agg" in rv:
+        return rv["agg"].get("vname")
+    if "use" in rv:
+        os_ = origins(body, rv["use"])
+        vs = set()
+        for o in os_:
+            if o[0] != "agg":
+                return None
+            vs.add(body.blocks[o[1]]["stmts"][o[2]]["rv"]["agg"].get("vname"))
+        return vs.pop() if len(vs) == 1 else None
+    return None
+
+
+def enum_flag(prog, m, ty):
+    """(field, set of variant names mapped to true) when the bool method is `match self.<field> { V1 => true, V2 => false }`"""
+    if m.local_ty(0) != "bool" or any(True for _ in m.iter_calls()):
+        return None
+    for (sb, place, targets, otherwise) in lib.discr_switches(m):
+        f = lib.field_of(place)
+        if place["l"] != 1 or not f or f[0] != ty:
+            continue
+        res = lib.enum_arms(m, prog, sb)
+        if not res:
+            continue
+        arms, ow, adt = res
+        true_v, false_v = set(), set()
+        for vname, tb in arms.items():
+            vals = {lib.const_val(st["rv"]["use"]) for b, i, st in m.iter_stmts() if st["k"] == "assign" and st["place"]["l"] == 0
+                    and not st["place"]["p"] and "use" in st["rv"] and m.dominates(tb, b)}
+            if vals == {1}:
+                true_v.add(vname)
+            elif vals == {0}:
+                false_v.add(vname)
+            else:
+                return None
+        if true_v and false_v and (ow is None or m.is_unreachable_block(ow)):
+            return f[1], true_v
+    return None
 
 
 def option_flag(m):
